@@ -72,3 +72,35 @@ FAMILIES["C10"] = dict(
                 "by trace validation on every recorded step (TLC-enumerated type-chaotic programs and seeded ones)."),
     level_note=_TOTAL_NOTE + " The projection (harness/jh/value.go) is the definition of 'JSON-representable' used by the check.",
 )
+
+
+_API_MODELS = [("MC_Api", "MC_Api_none.cfg", "hold"),
+               ("MC_Api", "MC_Api_chain_args.cfg", "AstReadOnly"),
+               ("MC_Api", "MC_Api_transform_alias.cfg", "InputsUntouched"),
+               ("MC_Api", "MC_Api_registry_alias.cfg", "Visibility")]
+
+FAMILIES["C05"] = dict(
+    famtag="C05",
+    models=_API_MODELS,
+    g=[G("MC_C09", "MC_C09_quick.cfg", "MC_C09_quick.cfg")],
+    v=[dict(profile="mix", n={"quick": 5000, "thorough": 100000}),
+       dict(profile="blocks", n={"quick": 1500, "thorough": 30000}),
+       dict(profile="calls", n={"quick": 1500, "thorough": 30000})],
+    hist=dict(n={"quick": 800, "thorough": 16000}),
+    level_text=("AstReadOnly and Repeatable are an action property and an invariant of the system specification JApi; TLC proves them for every history of up to 4 API calls over 2 expressions and a program pool with a chain, "
+                "a transform and registry lookups, and shows that the named deviations (the chain operator rewriting the parsed call, a transform writing through, a registry alias) violate them. The specification is bound to the code by "
+                "trace validation of seeded API histories (TraceApi: Compile/Register/Eval/SetDoc interleaved over 3 expressions x 3 documents, incl. other expressions calling the same built-ins in between) and by a second and third "
+                "evaluation on the same Expr after every replayed case (same input; another input in between), with the hook-projected Expr.node and String() compared after every Eval."),
+    level_note=_TOTAL_NOTE + " Sanctioned variation ($random, $shuffle, clock, member order, error choice in object constructors) is excluded by a syntactic MayVary predicate in the trace specification.",
+)
+FAMILIES["C07"] = dict(
+    models=_API_MODELS,
+    g=[G("MC_C07", "MC_C07_quick.cfg", "MC_C07_thorough.cfg")],
+    v=[dict(profile="transform", n={"quick": 3000, "thorough": 60000}, args=["-nulls", "-shared"]),
+       dict(profile="mix", famtag="C07mix", n={"quick": 4000, "thorough": 80000}, args=["-nulls", "-shared"])],
+    hist=dict(n={"quick": 400, "thorough": 8000}),
+    level_text=("InputsUntouched is the frame condition of JApi!ApiEval (TLC: holds in the design, violated by the transform_alias deviation); the transform operator is specified in JEval with object identities "
+                "(clone, pattern evaluated on the labelled clone, update/delete applied to exactly the selected identities). TLC enumerates patterns x updates x deletes x documents; every replayed and every seeded case (all operators and "
+                "built-ins, inputs with nulls, empty containers and shared sub-structures, registered variables) has the caller's document and variables deep-compared before and after by trace validation, successful or failing."),
+    level_note=_SEM_NOTE,
+)
